@@ -71,7 +71,9 @@ def is_walk(s):
 # ---------------------------------------------------------------- fragments
 WORDS = ['pass', 'word', 'love', 'monkey', 'dragon', 'secret', 'blue', 'test', 'iloveyou', 'пароль', 'привет', 'λόγος', 'mañana',
          'straße', 'abcd', 'cat', 'ab', 'x', 'qwertyuiopasdfghjklzx']
-SYMBOLS = ['!', '@', '#', '$', '.', '-', '_', ' ', '  ', '€', '\U0001F600', ' ', '%', '&', '*', '?', '/', ':', ';', '<', '(', '"']
+SYMBOLS = ['!', '@', '#', '$', '.', '-', '_', ' ', '  ', '€', '\U0001F600', ' ', '%', '&', '*', '?', '/', ':', ';', '<', '(', '"',
+           # non-letters that str.lower()/upper() nevertheless change (circled letters, roman numerals: categories So / Nl)
+           '\u24b6', '\u24d0', '\u2167', '\u2177', '\u24c2\u24c2']
 UNIDIGITS = ['²', '٣', '５']
 SPECIAL = {
     'U0130': ['\u0130', 'a\u0130b', '\u0130stanbul'],          # lower() changes the length
